@@ -19,3 +19,63 @@ def NumCell.val : NumCell → Rat
   | .flt q => q
 
 end MD
+
+namespace MD
+
+/-- the numpy dtypes a container can hand over -/
+inductive DType where
+  | bool | u8 | u16 | u32 | u64 | i8 | i16 | i32 | i64 | f32 | f64
+  deriving DecidableEq, Repr
+
+def DType.all : List DType := [.bool, .u8, .u16, .u32, .u64, .i8, .i16, .i32, .i64, .f32, .f64]
+
+/-- `dtype.kind` -/
+def DType.kind : DType → Char
+  | .bool => 'b'
+  | .u8 | .u16 | .u32 | .u64 => 'u'
+  | .i8 | .i16 | .i32 | .i64 => 'i'
+  | .f32 | .f64 => 'f'
+
+/-- `dtype.itemsize` -/
+def DType.itemsize : DType → Nat
+  | .bool | .u8 | .i8 => 1
+  | .u16 | .i16 => 2
+  | .u32 | .i32 | .f32 => 4
+  | .u64 | .i64 | .f64 => 8
+
+/-- `identification_function`: `kind in "ub" or (kind == "i" and itemsize < 8)` ⇒ `astype(float)` -/
+def identCasts (d : DType) : Bool :=
+  d.kind = 'u' || d.kind = 'b' || (d.kind = 'i' && d.itemsize < 8)
+
+/-- the scoring functions: `kind in "iub"` ⇒ `astype(float)` -/
+def scoreCasts (d : DType) : Bool := d.kind = 'i' || d.kind = 'u' || d.kind = 'b'
+
+/-- the integers an integer dtype holds (`none` for the float dtypes) -/
+def DType.range : DType → Option (Int × Int)
+  | .bool => some (0, 1)
+  | .u8 => some (0, 2 ^ 8 - 1)
+  | .u16 => some (0, 2 ^ 16 - 1)
+  | .u32 => some (0, 2 ^ 32 - 1)
+  | .u64 => some (0, 2 ^ 64 - 1)
+  | .i8 => some (-2 ^ 7, 2 ^ 7 - 1)
+  | .i16 => some (-2 ^ 15, 2 ^ 15 - 1)
+  | .i32 => some (-2 ^ 31, 2 ^ 31 - 1)
+  | .i64 => some (-2 ^ 63, 2 ^ 63 - 1)
+  | .f32 | .f64 => none
+
+/-- integer arithmetic carried out inside an integer dtype wraps around (two's complement /
+modulo); bool subtraction is not defined by numpy (it raises) and is left alone here -/
+def DType.wrap (d : DType) (x : Int) : Int :=
+  match d.range with
+  | some (lo, hi) => (x - lo) % (hi - lo + 1) + lo
+  | none => x
+
+/-- the residual `y_pred − y_obs` of whole-numbered data held in dtype `d`, as the library computes
+it: exactly (in float64) when the dtype is cast first, inside the dtype otherwise -/
+def identResidual (d : DType) (y z : Int) : Int :=
+  if identCasts d then z - y else d.wrap (z - y)
+
+/-- … and as it was computed before the repair (never cast) -/
+def identResidualOld (d : DType) (y z : Int) : Int := d.wrap (z - y)
+
+end MD
